@@ -928,11 +928,19 @@ pub(crate) async fn prepare_request(
 
     let (operation_name, mut operation) = operation.map_err(|err| vec![err])?;
 
-    // remove skipped fields
-    for fragment in document.fragments.values_mut() {
-        remove_skipped_selection(&mut fragment.node.selection_set.node, &request.variables);
+    // remove skipped fields (omitted variables fall back to their declared default values)
+    let mut skip_variables = request.variables.clone();
+    for def in &operation.node.variable_definitions {
+        if let Some(default_value) = &def.node.default_value
+            && !skip_variables.contains_key(&def.node.name.node)
+        {
+            skip_variables.insert(def.node.name.node.clone(), default_value.node.clone());
+        }
     }
-    remove_skipped_selection(&mut operation.node.selection_set.node, &request.variables);
+    for fragment in document.fragments.values_mut() {
+        remove_skipped_selection(&mut fragment.node.selection_set.node, &skip_variables);
+    }
+    remove_skipped_selection(&mut operation.node.selection_set.node, &skip_variables);
 
     let env = QueryEnvInner {
         extensions,
